@@ -300,6 +300,20 @@ def r4(ctx: Ctx) -> None:
             bad.append((t, "encoded from " + written[t]))
     ctx.ob("C13.R4", dec, "each tag decodes with the inverse constructor of what encodes it", None, not bad,
            f"mismatches: {bad}" if bad else f"{len(read)} tags", text="inverse")
+    # the encoder is LOSSLESS: the payload value is the value itself, its argument-less isoformat(), or str() of it
+    lossy = []
+    for n in ast.walk(enc.node):
+        if isinstance(n, ast.Dict):
+            for k, v in zip(n.keys, n.values):
+                if isinstance(k, ast.Constant) and k.value == "v":
+                    t = norm_text(v)
+                    if t in ("value", "str(value)", "value.isoformat()"):
+                        continue
+                    lossy.append(t)
+    ctx.ob("C13.R4", enc, "every bound is encoded losslessly", None, not lossy,
+           ("payload expressions are value / value.isoformat() / str(value)" if not lossy else
+            f"lossy payload expression(s) {lossy}: a rounded upper bound lies BELOW the file's real maximum, so files holding "
+            f"matching rows are pruned"), text="lossless")
     chain = _isinstance_chain(enc, "value")
     def before(a: str, b: str) -> bool:
         return a in chain and b in chain and chain.index(a) < chain.index(b)
@@ -339,6 +353,28 @@ def r5r6(ctx: Ctx) -> None:
         same = bool({n for n in ko["names"]} & {n for n in vo["names"]} & {"field_dict"})
         ctx.ob("C13.R5", cb, "bound stored under field_dict['id'] for the column field_dict['name']", s, k_id and v_name and same,
                "key and column come from the same schema field")
+    # the stored bound is the UNTRANSFORMED pc.min / pc.max of the column
+    for st in stores:
+        v = st.ast.value  # type: ignore[union-attr]
+        chain_ok = False
+        why = norm_text(v)
+        if isinstance(v, ast.Name):
+            defs = ctx.rd(cb).reaching(st.id, v.id)
+            rhs = [g.nodes[d].ast.value for d in defs if isinstance(g.nodes[d].ast, ast.Assign)]
+            why = " | ".join(norm_text(x) for x in rhs)
+            ok_each = []
+            for x in rhs:
+                if isinstance(x, ast.Call) and isinstance(x.func, ast.Attribute) and x.func.attr == "as_py" and isinstance(x.func.value, ast.Name):
+                    d2 = ctx.rd(cb).reaching(defs[0], x.func.value.id)
+                    r2 = [g.nodes[d].ast.value for d in d2 if isinstance(g.nodes[d].ast, ast.Assign)]
+                    want = "pc.min" if "lower" in norm_text(st.ast.targets[0]) else "pc.max"  # type: ignore[union-attr]
+                    ok_each.append(bool(r2) and all(isinstance(y, ast.Call) and (dotted(y.func) or "") == want for y in r2))
+                else:
+                    ok_each.append(False)
+            chain_ok = bool(ok_each) and all(ok_each) and len(defs) == len(rhs)
+        ctx.ob("C13.R5", cb, "stored bound = pc.min/pc.max(column).as_py(), untransformed", st, chain_ok,
+               f"value chain `{why}`: any truncation / rounding / sentinel makes the stored interval narrower than the data and "
+               "prunes files that hold matching rows")
     pr = ctx.fn("filters.prune_files_by_bounds")
     maps = [n for n in ast.walk(pr.node) if isinstance(n, ast.Assign) and isinstance(n.targets[0], ast.Subscript)
             and "col_name_to_id" in norm_text(n.targets[0].value)]
